@@ -465,7 +465,19 @@ def check_coll(recipe) -> list[Fail]:
                         # is attempted at once and must fail leaving the view unchanged; with a buffer it is merely queued for a
                         # later session, which the statement does not describe: skipped
                         k, v = SKEYS[op[1]], VALS[op[2]]
-                        if ro or asked_buf[id(coll)] > 0 or len(k) + len(v) <= asked_buf[id(coll)]:
+                        if ro:
+                            # a handle opened readonly=True refuses every put, whatever its buffer: nothing is queued, nothing listed
+                            try:
+                                coll[k] = v
+                                fails.append(Fail("coll:put-on-a-readonly-collection-accepted", f"session {si} op {oi} put({_abbr(k)}) buf={asked_buf[id(coll)]}"))
+                                break
+                            except Exception:
+                                pass
+                            if set(coll.keys()) != set(sess_model):
+                                fails.append(Fail("coll:refused-put-on-a-readonly-collection-changed-the-key-listing", f"session {si} op {oi}"))
+                                break
+                            continue
+                        if asked_buf[id(coll)] > 0 or len(k) + len(v) <= asked_buf[id(coll)]:
                             continue   # (an empty key with an empty value does not exceed a buffer of 0 bytes: queued, not attempted)
                         try:
                             coll[k] = v
